@@ -23,3 +23,35 @@ pub(crate) fn fragment_event(event: &'static str, index: u32) {
         hook(event, index);
     }
 }
+
+// ---- block call trace -------------------------------------------------------
+//
+// While a trace is active on the current thread, the block decoding paths of
+// `decode::read_write` report every block line they visit and every call of a
+// `ProcessBlocksFn` they make (byte offsets relative to the slices they were
+// given). A test harness compares this trace with a model of those paths.
+//
+// Events: `[0, first block row, end block row, output byte offset of the line,
+// native bytes per pixel, channel conversion needed]` for a block line and
+// `[1, encoded byte offset, encoded byte length, width, width offset, output
+// byte offset]` for a call.
+
+thread_local! {
+    static BLOCK_TRACE: std::cell::RefCell<Option<Vec<Vec<usize>>>> = const { std::cell::RefCell::new(None) };
+}
+
+/// Starts recording the block call trace of the current thread.
+pub fn start_block_trace() {
+    BLOCK_TRACE.with(|t| *t.borrow_mut() = Some(Vec::new()));
+}
+/// Stops recording and returns the recorded events.
+pub fn take_block_trace() -> Vec<Vec<usize>> {
+    BLOCK_TRACE.with(|t| t.borrow_mut().take().unwrap_or_default())
+}
+pub(crate) fn block_event(event: &[usize]) {
+    BLOCK_TRACE.with(|t| {
+        if let Some(trace) = t.borrow_mut().as_mut() {
+            trace.push(event.to_vec());
+        }
+    });
+}
